@@ -104,9 +104,15 @@ class ListV(V):
         self.opaque_elem = opaque_elem
         self.length = None if items is None else len(items)
         self.len_choices = None
+        self.lazy = False           # True: produced by a generator (not Sized, always truthy)
 
     def __repr__(self):
         return f"List<{self.tag}>" if self.items is None else f"[{', '.join(map(repr, self.items))}]"
+
+
+class SliceV(V):
+    def __init__(self, lo, hi):
+        self.lo, self.hi = lo, hi
 
 
 class UnitV(V):
@@ -294,6 +300,7 @@ class State:
         self.type_defs: Dict[str, object] = {}
         self.cls_fields: Dict[tuple, object] = {}
         self.known_absent = set()
+        self.unit_defs: Dict[str, object] = {}
         self.notes: List[str] = []
 
     # -- fresh ids
